@@ -40,6 +40,9 @@ pub enum CovSpec {
     /// the standard signature covenant of key k cut off after `cut` bytes (mostly inside its PushB literal)
     Truncated(usize, usize),
     Heavy, // a covenant with a large weight (nested loops), true
+    /// approves iff field `i` of the previous header (heap slot 10) is non-zero (or, with the flag, iff it is zero);
+    /// 32-byte fields are read as integers
+    HeaderField(u8, bool),
 }
 
 impl CovSpec {
@@ -80,6 +83,17 @@ impl CovSpec {
                 b.slice(0..n)
             }
             CovSpec::Heavy => Covenant::from_ops(&[PushI(1u8.into()), Loop(30, 2), Loop(20, 1), Noop]).to_bytes(),
+            CovSpec::HeaderField(i, want_zero) => {
+                let mut ops = vec![PushI(U256::from(*i)), LoadImm(10), VRef];
+                if matches!(i, 1 | 3 | 4 | 5 | 9 | 10) {
+                    ops.push(BtoI);
+                }
+                if *want_zero {
+                    ops.push(PushI(0u8.into()));
+                    ops.push(Eql);
+                }
+                Covenant::from_ops(&ops).to_bytes()
+            }
         }
     }
     pub fn address(&self, keys: &[Key]) -> Address {
@@ -118,7 +132,13 @@ impl Wallet {
                 2 => CovSpec::Undecodable,
                 3 => CovSpec::IndexIs(r.below(3) as u8),
                 4 => CovSpec::ValueLt(*r.pick(&[100u128, 1_000_000, 1 << 40])),
-                _ => CovSpec::TimeLock(height + r.below(3)),
+                _ => {
+                    if r.chance(1, 2) {
+                        CovSpec::HeaderField(*r.pick(&[9u8, 6, 1, 4, 3, 7]), r.chance(1, 3))
+                    } else {
+                        CovSpec::TimeLock(height + r.below(3))
+                    }
+                }
             };
         }
         match r.below(20) {
@@ -129,7 +149,13 @@ impl Wallet {
             15 => CovSpec::HashLock(r.bytes(3)),
             16 => CovSpec::TimeLock(height + r.below(3)),
             17 => CovSpec::IndexIs(r.below(3) as u8),
-            18 => CovSpec::Heavy,
+            18 => {
+                if r.chance(1, 2) {
+                    CovSpec::Heavy
+                } else {
+                    CovSpec::HeaderField(*r.pick(&[9u8, 6, 1, 4, 3, 7]), r.chance(1, 3))
+                }
+            }
             _ => match r.below(4) {
                 0 => CovSpec::Never,
                 1 => CovSpec::Undecodable,
@@ -496,7 +522,11 @@ pub fn gen_deposit(r: &mut Rng, w: &mut Wallet, cx: &Ctx) -> Option<Transaction>
         _ => 1 + r.u128() % m.max(1),
     }
     .min(m);
-    let outs = vec![out(w.rand_addr(r, cx.height), pickv(r, fl), key.left()), out(w.rand_addr(r, cx.height), pickv(r, fr), key.right())];
+    let mut outs = vec![out(w.rand_addr(r, cx.height), pickv(r, fl), key.left()), out(w.rand_addr(r, cx.height), pickv(r, fr), key.right())];
+    // the two sides listed backwards (right, left) under the canonical pool name: not a deposit into that pool
+    if r.chance(1, 8) {
+        outs.swap(0, 1);
+    }
     let (outs, change) = balance(r, w, &inputs, outs, cx.height);
     let mut tx = assemble(w, TxKind::LiqDeposit, &inputs, outs, 0, key.to_bytes().to_vec());
     fix_fee(w, &mut tx, &inputs, cx.mult, r.below(100) as u128, change).then_some(tx)
@@ -604,7 +634,15 @@ pub fn gen_stake(r: &mut Rng, w: &mut Wallet, cx: &Ctx) -> Option<Transaction> {
     let declared = if r.chance(1, 8) { amount + 1 } else { amount };
     let doc = StakeDoc { pubkey: w.keys[k].pk, e_start, e_post_end, syms_staked: CoinValue(declared) };
     let outs = vec![out(w.rand_addr(r, cx.height), amount, Denom::Sym)];
-    let (outs, change) = balance(r, w, &inputs, outs, cx.height);
+    let (mut outs, change) = balance(r, w, &inputs, outs, cx.height);
+    // the staked SYM is not the first output (change first, or a zero-valued MEL output in front): not a stake
+    if r.chance(1, 6) {
+        if outs.len() >= 2 && outs[1].denom != Denom::Sym {
+            outs.swap(0, 1);
+        } else if outs.len() < 255 {
+            outs.insert(0, out(w.rand_addr(r, cx.height), 0, Denom::Mel));
+        }
+    }
     let data = if r.chance(1, 12) { r.bytes(7) } else { stdcode::serialize(&doc).unwrap() };
     let mut tx = assemble(w, TxKind::Stake, &inputs, outs, 0, data);
     fix_fee(w, &mut tx, &inputs, cx.mult, 0, change).then_some(tx)
